@@ -129,4 +129,14 @@ example : parseBase (S "A;q=1;mass=72") =
     .ok [(S "mass", .str (S "72")), (S "fragname", .str (S "A")), (S "weight", .num 1 0), (S "charge", .num 1 0)] := by
   decide +kernel
 
+/-- finding S3 on the model: the annotation of a coarse-fragment node is parsed with the fragment
+    dialect (strip_bonding_descriptors knows no other), where `q` is a free key kept as text and the
+    first positional value is the weight — the base dialect, documented for every coarse resolution,
+    reads the same texts as a charge -/
+theorem C14_S3_witness :
+    parseFrag (S "q=1") = .ok [(S "q", .str (S "1")), (S "weight", .num 1 0)] ∧
+    parseFrag (S "1;0.5") = .ok [(S "weight", .num 1 0), (S "chiral", .str (S "0.5"))] ∧
+    parseBase (S "X;q=1") = .ok [(S "fragname", .str (S "X")), (S "weight", .num 1 0), (S "charge", .num 1 0)] := by
+  refine ⟨?_, ?_, ?_⟩ <;> decide +kernel
+
 end CGV.C14
